@@ -152,7 +152,8 @@ fn real_main(args: Vec<String>) -> i32 {
         }
         "run" => {
             let src = std::fs::read_to_string(&args[2]).expect("read");
-            let t = bv::run::run(&src, &bv::run::RunCfg::default());
+            let stress: u64 = std::env::var("BV_GC_STRESS").ok().and_then(|s| s.parse().ok()).unwrap_or(0);
+            let t = bv::run::run(&src, &bv::run::RunCfg { gc_stress: stress, ic_off: std::env::var_os("BV_IC_OFF").is_some(), ..bv::run::RunCfg::default() });
             println!("{}", t.render());
             0
         }
